@@ -713,13 +713,23 @@ fn fixed() -> Vec<Inst> {
                exprs: vec![], tags: t("coefficient-overflow-reciprocal") },
         Inst { domain: d(vec![("x", real(-INF, INF))]), constraints: vec![row(mul(k(1e300), mul(k(1e300), v("x"))), ge, k(-5.0), 0)],
                exprs: vec![], tags: t("coefficient-overflow-product") },
-        // known finding C07-float-rounding-var (liveness): absorption in the reverse step through a nested sum
+        // repaired by edcfe64 (regression case): absorption in the reverse step through a nested sum
         Inst { domain: d(vec![("x", real(-0.5, 0.5))]), constraints: vec![row(add(abs(mul(k(1e-12), v("x"))), k(1e6)), le, k(1000001.0), 0)],
                exprs: vec![], tags: t("nested-sum-absorption") },
         // repaired by 4e5bd4b (regression cases): absorption in the top-level reverse step of a non-affine row
         Inst { domain: d(vec![("x", VariableType::NonNegativeReal(0.0, 1.0)), ("y", VariableType::NonNegativeReal(0.0, 1.0))]),
                constraints: vec![row(Exp::Max(vec![v("x"), v("y")]), le, k(1e16), 0)], exprs: vec![], tags: t("bigm-absorption") },
         Inst { domain: d(vec![("z", real(0.0, 1000.0))]), constraints: vec![row(abs(mul(k(1e-9), v("z"))), le, k(1e9), 0)], exprs: vec![], tags: t("bigm-absorption-partial") },
+        // infeasible model on which propagation keeps doubling a lower bound up to the step limit (seen by C01 after edcfe64)
+        Inst { domain: d(vec![("x", real(-INF, INF)), ("y", real(-INF, INF))]),
+               constraints: vec![
+                   row(sub(mul(Exp::Min(vec![v("y")]), k(0.5)), add(add(v("y"), k(3.0)), k(-1.0))), ge, Exp::Min(vec![div(v("y"), k(0.5)), abs(k(2.0)), k(2.0)]), 0),
+                   row(sub(Exp::Min(vec![add(v("y"), k(0.0))]), sub(add(k(2.0), k(1.0)), neg(v("x")))), ge, k(2.0), 1),
+                   row(abs(v("y")), eq, v("y"), 2)],
+               exprs: vec![], tags: t("doubling-lower-bound") },
+        // known finding C07-float-rounding-var (liveness): a literal product that underflows to a zero coefficient
+        Inst { domain: d(vec![("x", real(-INF, INF)), ("y", real(-3.5, 2.0))]),
+               constraints: vec![row(add(mul(k(1e-200), mul(k(1e-200), v("x"))), v("y")), eq, k(2.0), 0)], exprs: vec![], tags: t("underflow-coefficient") },
         // inf - inf in interval sums (NaN repair)
         Inst { domain: d(vec![("x", real(-INF, INF)), ("y", real(0.0, INF))]), constraints: vec![row(sub(v("x"), v("y")), le, k(INF), 0)],
                exprs: vec![add(v("x"), k(INF)), sub(v("y"), v("y")), sub(k(-INF), v("x")), add(v("x"), v("y"))], tags: t("inf-minus-inf") },
